@@ -71,3 +71,22 @@ Proof.
     replace (Z.of_N k - 1)%Z with (Z.of_N (k - 1)) by lia.
     change 256%Z with (Z.of_N 256). rewrite <- N2Z.inj_pow. lia.
 Qed.
+
+(* impl::Writer::calculateXrefStreamPadding (the space reserved after the first-pass xref stream of a linearized file):
+   the translated C++ - long long arithmetic, truncating division, QIntC::to_size - is the model's xref_stream_padding
+   for every byte count below 2^62; no intermediate result leaves long long and QIntC::to_size does not throw there *)
+Lemma xref_stream_padding_src_lemma : forall x, (0 <= x < 2 ^ 62)%Z ->
+  lf_calculateXrefStreamPadding x = Z.of_N (xref_stream_padding (Z.to_N x)).
+Proof.
+  intros x Hx. unfold lf_calculateXrefStreamPadding, xref_stream_padding.
+  assert (H62 : (2 ^ 62 = 4611686018427387904)%Z) by reflexivity. rewrite H62 in Hx.
+  rewrite (lf_wrap_s_64_small (x + 16383)) by lia.
+  rewrite Z.quot_div_nonneg by lia.
+  assert (Hq : (0 <= (x + 16383) / 16384 <= x + 1)%Z).
+  { split; [apply Z.div_pos; lia|]. apply Z.div_le_upper_bound; lia. }
+  rewrite (lf_wrap_s_64_small ((x + 16383) / 16384)) by lia.
+  rewrite (lf_wrap_s_64_small (5 * ((x + 16383) / 16384))) by lia.
+  rewrite (lf_wrap_s_64_small (16 + 5 * ((x + 16383) / 16384))) by lia.
+  rewrite lf_checked_in by lia.
+  rewrite N2Z.inj_add, N2Z.inj_mul, N2Z.inj_div, N2Z.inj_add, Z2N.id by lia. reflexivity.
+Qed.
